@@ -129,6 +129,19 @@ def handler(case):
                     for _ in st:
                         pass
         case = dict(case, segments=[])
+    if case["entry"] == "irun_abandon":
+        # the first run generator is asked for MORE steps than are taken and then abandoned (a loop left with `break`): what was not taken never happened,
+        # and the runs that follow perform exactly their own numbers of steps
+        a = case["segments"][0]
+        it = mc.irun(a + 5)
+        for _ in range(a):
+            for _x in next(it):
+                pass
+        nxt = next(it, None)          # resumes the generator: the a-th step is counted and observed; the (a+1)-th step generator is created, never consumed
+        it.close()
+        if nxt is not None and evlog and evlog[-1][0] == 2:
+            evlog.pop()               # (my step wrapper logs at creation time)
+        case = dict(case, segments=case["segments"][1:], entry="irun")
     for si, seg in enumerate(case["segments"]):
         if retune and si == retune["seg"]:
             recs[retune["obs"]].interval = retune["interval"]      # the user re-tunes an attached observer between two run calls
